@@ -646,7 +646,7 @@ macro_rules! gen_check {
     };
 }
 
-const COMMON_ASSUME: [&str; 3] = [
+pub const COMMON_ASSUME: [&str; 3] = [
     "harness (SimIo, virtual time, executor, reference broker) and refcodec are correct",
     "acceptance of a cancelled/failed request is read from the verif snapshot hook (retained list grew by one entry)",
     "an inbound packet counts as processed by the client from the moment its last byte was read (processing is synchronous after the read)",
@@ -735,6 +735,8 @@ pub fn all() -> Vec<Box<dyn Check>> {
         min_nt: (200, 2000),
         required: vec!["latches_observed", "ops_after_latch", "probes_after_latch"],
     }),
+    Box::new(crate::twins::C13),
+    Box::new(crate::twins::C15),
     gen_check!("C14", "exploration",
         "programs against brokers announcing Maximum Packet Size in {2..64,127,128,129,absent} with requests sized so that the encoded packet lands within +-3 bytes of the limit (publish at every QoS, subscribe, unsubscribe, disconnect), owed acknowledgements in 4- and 5-byte forms, retained packets replayed under a smaller limit, receive buffers 24..256 bytes with inbound packets of rx-2..rx+2 bytes. Non-trivial iff a packet within +-3 bytes of the limit was sent, a request was refused as too large, a mandatory packet did not fit or an oversize inbound packet arrived.",
         COMMON_ASSUME.to_vec(),
